@@ -41,6 +41,8 @@ def gen_world(rng, i, tier):
     c = rng.pick(["#", ";"])
     src = rng.pick(["built", "built", "parsed"])
     w = {"kind": "roundtrip", "src": src, "d": d, "c": c, "cfg": gen.io_cfg(rng)}
+    # the target of the write may already exist (an older, longer version of the file)
+    w["preexisting"] = rng.pick([None, None, "long", "garbage"])
     if src == "built":
         w["ctor"] = rng.pick(["newKeyFile", "newIniFile", "newOpts"])
         secs = [None] + [grammar.token(rng, "]" + c, 1, 6, first_forbid="[" + BLc, inner_blank=True).rstrip(BLc) or "S" for _ in range(rng.randint(1, 3))]
@@ -66,12 +68,22 @@ def gen_world(rng, i, tier):
         D = d if d != " " else rng.pick([" "])
         lines, kinds, pairs = grammar.gen_conventional(rng, D, c, rng.randint(1, 40), cont_trail=False)
         w["lines"] = [[k, l] for k, l in zip(kinds, lines)]
+        # the tags may be changed on the object after it was read: write and read back with OTHER characters,
+        # provided no byte of the file could be taken for them
+        d2, c2 = rng.pick(["=", ":"]), rng.pick(["#", ";"])
+        text = "".join(lines)
+        if rng.chance(0.5) and d != " " and (d2 != d or c2 != c) and (d2 == d or d2 not in text) and (c2 == c or c2 not in text):
+            w["d2"], w["c2"] = d2, c2
     return w
 
 
 def build_plans(world):
     d, c = world["d"], world["c"]
     tree = [{"t": "d", "p": "$ROOT/out"}]
+    if world.get("preexisting") == "long":
+        tree.append({"t": "f", "p": "$ROOT/out/w.conf", "c": "".join("old%d%sstale%d\n[oldsec%d]\n" % (n, d, n, n) for n in range(60))})
+    elif world.get("preexisting") == "garbage":
+        tree.append({"t": "f", "p": "$ROOT/out/w.conf", "c": "[unterminated\n" * 200})
     ops = []
     if world["src"] == "built":
         ops.append({"op": world["ctor"], "o": 0, "delim": ord(d), "comment": ord(c), "options": None, "tag": "ctor"})
@@ -80,6 +92,8 @@ def build_plans(world):
     else:
         tree.append({"t": "f", "p": "$ROOT/in.conf", "c": grammar.render([l for k, l in world["lines"]])})
         ops.append({"op": "readFile", "o": 0, "path": "$ROOT/in.conf", "delim": d, "comment": c, "tag": "ctor"})
+    if world.get("d2"):
+        d, c = world["d2"], world["c2"]
     ops.append({"op": "setTags", "k": 0, "delim": ord(d), "comment": ord(c)})
     ops.append({"op": "dump", "k": 0, "ext": True, "tag": "before"})
     ops.append({"op": "write", "k": 0, "dir": "$ROOT/out", "name": "w.conf", "readback": True, "tag": "write"})
@@ -185,6 +199,10 @@ def check(world, plans, results):
         v.probe("multiline_value")
     if "cb" in vk or "ca" in vk:
         v.probe("comments_present")
+    if world.get("d2"):
+        v.probe("tags_changed_after_read")
+    if world.get("preexisting"):
+        v.probe("target_file_existed_before")
     return v
 
 
